@@ -29,11 +29,25 @@ type Server[StateT any] struct {
 func (s *Server[StateT]) Serve(ln net.Listener) error {
 	defer ln.Close()
 
+	var retryDelay time.Duration
+
 	for {
 		conn, err := ln.Accept()
 		if err != nil {
+			// listener is still fine after temporary error (i.e. process ran out of file descriptors for a moment
+			// because of connections burst): server must not stop because of it
+			if tempErr, ok := err.(interface{ Temporary() bool }); ok && tempErr.Temporary() {
+				retryDelay = min(max(2*retryDelay, 5*time.Millisecond), time.Second)
+				s.Logger.Warn("Accept failed, retrying", logutil.ErrorAttr(err), slog.Duration("delay", retryDelay))
+				time.Sleep(retryDelay)
+
+				continue
+			}
+
 			return fmt.Errorf("accept failed: %w", err)
 		}
+
+		retryDelay = 0
 
 		go s.serveConn(conn)
 	}
